@@ -10,6 +10,16 @@ def x_jobs():
     for ind in IND:
         j.append(X("ind_stream_dispatch", {"kind": ind, "t": 3, "max_paths": 20000}, "%s (default configuration): an accepted instance processes 3 valid symbolic candles without a panic event on any feasible path (dev-profile semantics: overflow checks, debug assertions, index/unwrap panics)" % ind, cost=15, timeout=1200,
                    encodes=["src/indicators/*.rs: %s::{init,next}" % ind, "src/methods/*.rs", "src/core/window.rs"]))
+        if ind == "MoneyFlowIndex":
+            # typical price * volume makes the path conditions non-linear: 3 steps are decided on an idle machine only
+            j[-1].core = False
+            j[-1].tier = "t"
+            import copy
+            q = copy.copy(j[-1])
+            q.args = dict(q.args, t=2)
+            q.core, q.tier = True, "q"
+            q.bounds = q.bounds.replace("3 valid", "2 valid")
+            j.append(q)
     for m in ("sma", "wma", "swma", "hma", "linreg", "trima", "integral", "derivative", "momentum", "stdev", "linvol", "vwma", "adi"):
         j.append(X("c02_" + m, {"n": 254, "t": 257} if m not in ("hma", "trima", "stdev", "vwma", "adi") else {"n": 16, "t": 19}, "%s at its largest covered length: no panic event on any feasible path of a symbolic stream (and the output equals the definition)" % m, cost=30,
                    encodes=["src/methods/*.rs: %s" % m, "src/core/window.rs"]))
